@@ -720,14 +720,14 @@ func (self *LockCommandData) DecodeLockCommand(lockCommand *LockCommand) error {
 			return errors.New("data size error")
 		}
 		dataLen := int(uint32(self.Data[valueOffset+64]) | uint32(self.Data[valueOffset+65])<<8 | uint32(self.Data[valueOffset+66])<<16 | uint32(self.Data[valueOffset+67])<<24)
-		buf := make([]byte, dataLen+4)
-		buf[0], buf[1], buf[2], buf[3] = byte(dataLen), byte(dataLen>>8), byte(dataLen>>16), byte(dataLen>>24)
 		if dataLen <= 0 {
 			return nil
 		}
 		if len(self.Data) < valueOffset+dataLen+68 {
 			return errors.New("data size error")
 		}
+		buf := make([]byte, dataLen+4)
+		buf[0], buf[1], buf[2], buf[3] = byte(dataLen), byte(dataLen>>8), byte(dataLen>>16), byte(dataLen>>24)
 		copy(buf[4:], self.Data[valueOffset+68:valueOffset+dataLen+68])
 		lockCommand.Data = NewLockCommandDataFromOriginBytes(buf)
 	}
